@@ -152,6 +152,22 @@ func genC04(rng *rand.Rand, n int, emit func(Case), dist map[string]int) {
 			method := []string{"GET", "GET", "POST"}[rng.Intn(3)]
 			path := []string{"/a", "/b/:id", "", "/", "/x/*", "/a/b", "/users"}[rng.Intn(7)]
 			fs, sxs, ids := mkMWs([]int{0, 0, 1, 2}[rng.Intn(4)])
+			if rng.Intn(7) == 0 {
+				// one handler for several methods, with route-level middleware: Echo.Match / Group.Match
+				if owner < 0 {
+					e.Match([]string{"GET", "POST"}, path, handler, fs...)
+					routes[h] = routeInfo{owner: -1, chain: ids, full: path}
+					fullPaths = append(fullPaths, path)
+				} else {
+					g := groups[owner]
+					g.g.Match([]string{"GET", "POST"}, path, handler, fs...)
+					routes[h] = routeInfo{owner: owner, chain: append(append([]int(nil), g.mws...), ids...), full: g.prefix + path, host: g.host}
+					fullPaths = append(fullPaths, g.prefix+path)
+				}
+				ops = append(ops, L(I(5), I(owner), S("GET"), S(path), I(h), I(herr), L(sxs...)), L(I(5), I(owner), S("POST"), S(path), I(h), I(herr), L(sxs...)))
+				dist["match_registrations"]++
+				return
+			}
 			if owner < 0 {
 				if method == "GET" && h%2 == 0 {
 					e.GET(path, handler, fs...)
